@@ -8,8 +8,13 @@
        named_args s = Some ks          (coq/Printf/NamedArgs.v: an independent list-level reading of the directive
                                         syntax: "*", ".*", the converted value with its kind; for n$ the positions up
                                         to n not named before; None = a position named with two different kinds)
-       args_ok mem ks args             = at least length ks arguments, and every argument named as a %s string is a
-                                        null pointer or points (in mem) to a buffer that contains a NUL
+       args_ok mem 0 ks args           = at least length ks arguments, and every argument named as a %s string is a
+                                        null pointer or points (in mem) to a buffer that - as ISO C asks - contains a
+                                        NUL, or, when the directive has a precision p (a literal, or the int that ".*"
+                                        fetched just before it), has at least p bytes (IsoPrintf.has_nul_within: a NUL
+                                        among the first p bytes or p bytes present); positional %n$s: a NUL.
+                                        The model's string buffers are exact-size (any read at or past the end is UB), so
+                                        "never UB" includes: strnlen/the copy loop never touch index p of the argument.
    - run_printf (fuel = length s + 1) ends in Ok or in AssertStop, never in UB and never out of fuel; when it ends
    in Ok the va_arg log is exactly (the va_arg classes of) ks, when it stops in the assertion hook it is a
    prefix of it: no variadic argument beyond those the directives consume is ever fetched.
@@ -31,7 +36,7 @@ Theorem C20_printf_total_safe :
   forall (mem : memory) (s : list byte) (args cache : list N) (ks : list argkind),
     (9 <= length cache)%nat ->
     named_args s = Some ks ->
-    args_ok mem ks args ->
+    args_ok mem 0%N ks args ->
     let r := run_printf mem s args cache in
     match snd r with
     | Ok _ => va_pops (ps_vs (fst r)) = map kind_va ks
@@ -42,23 +47,31 @@ Theorem C20_printf_total_safe :
 Proof. exact printf_format_named. Qed.
 Print Assumptions C20_printf_total_safe.
 
-(* non-vacuity: what some formats name; a format with enough arguments of the right kinds; a kind conflict *)
+(* non-vacuity: what some formats name; a format with enough arguments of the right kinds; arrays WITHOUT a NUL of
+   exactly `precision` bytes (literal and ".*" precision); a kind conflict *)
 Example C20_printf_total_safe_examples :
   (* "a%%%-+ 0'12.34lld%2$*.*hhx" *)
   named_args [97; 37; 37; 37; 45; 43; 32; 48; 39; 49; 50; 46; 51; 52; 108; 108; 100; 37; 50; 36; 42; 46; 42; 104; 104; 120]%N
     = Some [KLLong; KInt; KInt]
   (* "%*.*s%p%5" : cut off inside the last directive *)
-  /\ named_args [37; 42; 46; 42; 115; 37; 112; 37; 53]%N = Some [KInt; KInt; KStr; KPtr]
-  /\ args_ok [(4096, [104; 105; 0])]%N [KInt; KInt; KStr; KPtr] [7; 1; 4096; 77; 99]%N
+  /\ named_args [37; 42; 46; 42; 115; 37; 112; 37; 53]%N = Some [KInt; KInt; KStr SStar; KPtr]
+  /\ args_ok [(4096, [104; 105; 0])]%N 0%N [KInt; KInt; KStr SStar; KPtr] [7; 1; 4096; 77; 99]%N
   /\ (let r := run_printf [(4096, [104; 105; 0])]%N [37; 42; 46; 42; 115; 37; 112; 37; 53]%N [7; 1; 4096; 77; 99]%N (repeat 0%N 9) in
       snd r = AssertStop "*s" /\ va_pops (ps_vs (fst r)) = [ATInt; ATInt; ATPtr; ATPtr] /\ va_rest (ps_vs (fst r)) = [99%N])
+  (* "%.3s|%.*s" with two arrays of exactly 3 and 2 bytes and no NUL *)
+  /\ named_args [37; 46; 51; 115; 124; 37; 46; 42; 115]%N = Some [KStr (SLit 3); KInt; KStr SStar]
+  /\ args_ok [(4096, [97; 98; 99]); (8192, [120; 121])]%N 0%N [KStr (SLit 3); KInt; KStr SStar] [4096; 2; 8192]%N
+  /\ (let r := run_printf [(4096, [97; 98; 99]); (8192, [120; 121])]%N [37; 46; 51; 115; 124; 37; 46; 42; 115]%N [4096; 2; 8192]%N (repeat 0%N 9) in
+      snd r = Ok tt /\ ps_out (fst r) = [97; 98; 99; 124; 120; 121]%N)
   (* "%1$d%1$s" names argument 1 as an int and as a string *)
   /\ named_args [37; 49; 36; 100; 37; 49; 36; 115]%N = None.
 Proof.
   repeat split; try reflexivity.
   - cbn. repeat constructor.
-  - intros j Hj Hk. destruct j as [|[|[|[|j]]]]; cbn in Hk; try discriminate; try (destruct j; discriminate).
-    right. exists [104; 105; 0]%N. split; reflexivity.
+  - intros j Hj lim Hk. destruct j as [|[|[|[|j]]]]; cbn in Hk; try discriminate; try (destruct j; discriminate).
+    inversion Hk; subst lim. right. exists [104; 105; 0]%N. split; reflexivity.
+  - intros j Hj lim Hk. destruct j as [|[|[|j]]]; cbn in Hk; try discriminate; try (destruct j; discriminate);
+      inversion Hk; subst lim; right; [exists [97; 98; 99]%N | exists [120; 121]%N]; split; reflexivity.
 Qed.
 
 Theorem C20_printf_no_internal_ub :
